@@ -200,6 +200,28 @@ fn families() -> Vec<(String, String, String, String)> {
         let twin = wrap_main(PLAIN_WORLD, &format!("{}    let t = std::thread::spawn(move || {{ let w = world; w.contains(e0) }}); let _ = t.join();\n", setup()));
         v.push(("share-world-scoped-thread".into(), neg, "E0277".into(), twin));
     }
+    // the iterators of the direct API (`Archetype::iter` / `iter_mut`, opaque `impl Iterator`
+    // types through which auto traits leak) hand out references into the columns: for a component
+    // that is !Send / !Sync they must not be Send / Sync (sending one to another thread would share
+    // `&Rc<_>` / `&Cell<_>` items of a world that is itself correctly !Send / !Sync)
+    for (cname, comp) in [("rc", "pub struct CompS(pub std::rc::Rc<u64>);"), ("cell", "pub struct CompS(pub std::cell::Cell<u64>);")] {
+        let decls = format!("{}\necs_world! {{\n    ecs_archetype!(ArchS, CompS);\n}}\nfn need_send<T: Send>(_t: &T) {{}}\nfn need_sync<T: Sync>(_t: &T) {{}}\n", comp);
+        for method in ["iter", "iter_mut"] {
+            for tr in ["send", "sync"] {
+                // Cell<u64> is Send: an iterator over `&mut Cell` items may be Send, one over `&Cell` items may not
+                if cname == "cell" && method == "iter_mut" && tr == "send" {
+                    continue;
+                }
+                let neg = wrap_main(&decls, &format!("    let mut world = EcsWorld::new();\n    need_{}(&world.arch_s.{}());\n", tr, method));
+                let twin = wrap_main(&decls, &format!("    let mut world = EcsWorld::new();\n    use_it(&world.arch_s.{}());\n", method));
+                v.push((format!("iterator-{}-{}-{}", tr, method, cname), neg, "E0277".into(), twin));
+            }
+        }
+        // actually moving one into a scoped thread
+        let neg = wrap_main(&decls, "    let mut world = EcsWorld::new();\n    let it = world.arch_s.iter();\n    std::thread::scope(|s| { s.spawn(move || { let _n = it.count(); }); });\n");
+        let twin = wrap_main(&decls, "    let mut world = EcsWorld::new();\n    let it = world.arch_s.iter();\n    std::thread::scope(|s| { s.spawn(move || { let _n = 0; }); });\n    let _n = it.count();\n");
+        v.push((format!("iterator-moved-to-thread-{}", cname), neg, "E0277".into(), twin));
+    }
     // Send: iff all components are Send
     for (name, bad, good) in [
         ("rc", "pub struct CompS(pub std::rc::Rc<u64>);", "pub struct CompS(pub std::sync::Arc<u64>);"),
